@@ -951,7 +951,20 @@ def open_compares(run) -> List[Tuple[Any, Any]]:
     out = []
     if run is None:
         return out
+    def rating_only(t, depth=0):
+        # built from the ratings and the model parameters alone (no rank value, no element of a sorted or unknown-position
+        # sequence, no numbered local): only then are all three relations possible whatever the assumed ordering of the ranks
+        if not isinstance(t, tuple) or depth > 60:
+            return True
+        if t and t[0] == "param":
+            return isinstance(t[1], str) and (t[1].startswith(("g.mu", "g.sg", "g.tau", "model.")))
+        if t and t[0] in ("elem", "opq", "rd", "idx", "in", "lenterm", "star-occurrence", "cmp"):
+            return False
+        return all(rating_only(x, depth + 1) for x in t[1:] if isinstance(x, tuple))
+
     def splittable(a, b):
+        if not (rating_only(a) and rating_only(b)):
+            return False
         # two input-dependent terms, or a *compound* term against a constant (a threshold on a computed quantity: both sides are
         # possible). A bare input against a constant is not split: the sign domain of the inputs (sigma > 0, tau >= 0) is not modelled here.
         if a[0] != "const" and b[0] != "const":
